@@ -313,8 +313,11 @@ struct Mon
 	std::uint64_t steps = 0;     // handler executions seen via the step hook
 	std::uint64_t steps_at_clock = 0;
 	std::uint64_t clock_samples = 0;
-	void reset() { api_depth = 0; last_clock = 0; steps = 0; steps_at_clock = 0; }
+	std::uint64_t handler_invocations = 0; // tracked-handler invocations in this case
+	std::int64_t throw_at = -1;            // make the n-th tracked handler throw HarnessThrow (C12)
+	void reset() { api_depth = 0; last_clock = 0; steps = 0; steps_at_clock = 0; handler_invocations = 0; throw_at = -1; }
 };
+struct HarnessThrow { int tag; };
 inline Mon& M() { static Mon m; return m; }
 
 struct ApiGuard
@@ -384,6 +387,11 @@ inline void on_invoke(OpRec& r, error_code const& ec, std::size_t bytes)
 {
 	clock_sample("handler entry");
 	++r.invocations;
+	if (std::int64_t(++M().handler_invocations) == M().throw_at)
+	{
+		r.ec = ec.value(); r.t_done = now_ns(); r.step_done = M().steps;
+		throw HarnessThrow{4711};
+	}
 	if (r.invocations == 1)
 	{
 		r.ec = ec.value();
